@@ -49,3 +49,76 @@ Definition wf_list (L : limits) (os : list obj) : bool :=
 
 (* k + 1 arrays inside each other *)
 Fixpoint nest (k : nat) : obj := match k with O => OArr [] | S k' => OArr [nest k'] end.
+
+(* ---- what the writer accepts ----
+   types.go (since "Format refuses what the scanner would not read back"): doFormat refuses an
+   array or dictionary enclosed in maxScannerNestDepth or more others, an array of more than
+   maxArrayLen elements, a dictionary of more than maxDictLen non-nil entries; formatName a name
+   of maxNameBytes or more (the keys of nil entries are not written and not looked at);
+   formatString a string of maxStringBytes or more, in either form; a reference whose number is
+   not below maxXRefSize.  Reals that are NaN or infinite are refused too: OReal is the token of a
+   finite real, so they are not values of the model.  d: the number of enclosing composites. *)
+Fixpoint fmt_ok (L : limits) (d : N) (o : obj) {struct o} : bool :=
+  match o with
+  | ONull | OBool _ | OInt _ | OReal _ | ONilArr => true
+  | OName n => blen n <? max_name L
+  | OStr s => blen s <? max_str L
+  | ORef n _ => (n <? max_xref)%Z
+  | ONilDict => d <? max_depth L
+  | OArr l => (d <? max_depth L) && (N.of_nat (length l) <=? max_arr L) && forallb (fmt_ok L (d + 1)) l
+  | ODict l =>
+    (d <? max_depth L) && (N.of_nat (length (norm_entries l)) <=? max_dict L)
+    && (fix go (l : list (bytes * obj)) : bool :=
+          match l with
+          | [] => true
+          | (k, v) :: r =>
+            (match v with ONull => true | _ => (blen k <? max_name L) && fmt_ok L (d + 1) v end) && go r
+          end) l
+  end.
+(* pdf.Format(w, opt, objects...): nothing encloses the objects *)
+Definition format_checked (L : limits) (p : bool) (os : list obj) : res bytes :=
+  if forallb (fmt_ok L 0) os then Ok (format p os) else Err Other.
+
+(* ---- values of the Go types ---- *)
+(* Integer is int64; Real a finite float64 (its FormatFloat token); String and Name hold bytes;
+   Reference packs a uint32 number and a uint16 generation; Dict is a map (distinct keys) *)
+Fixpoint go_value (o : obj) : bool :=
+  match o with
+  | OInt z => in_int64 z
+  | OReal t => real_grammar t && negb (real_overflow (force_dot t))
+  | OName n => wfbs n
+  | OStr s => wfbs s
+  | ORef n g => ((0 <=? n) && (0 <=? g) && (g <=? max_gen))%Z
+  | OArr l => forallb go_value l
+  | ODict l =>
+    nodup_keys l &&
+    (fix go (l : list (bytes * obj)) : bool :=
+       match l with [] => true | (k, v) :: r => wfbs k && go_value v && go r end) l
+  | _ => true
+  end.
+(* number tokens fit ReadNumber's buffer (maxNameBytes); with the real constant (4096) every
+   int64 and every finite float64 does - the hypothesis matters under shrunk limits only *)
+Fixpoint nums_fit (L : limits) (o : obj) : bool :=
+  match o with
+  | OInt z => blen (print_int z) <=? max_name L
+  | OReal t => blen (force_dot t) <=? max_name L
+  | ORef n g => (blen (print_int n) <=? max_name L) && (blen (print_int g) <=? max_name L)
+  | OArr l => forallb (nums_fit L) l
+  | ODict l =>
+    (fix go (l : list (bytes * obj)) : bool :=
+       match l with [] => true | (_, v) :: r => nums_fit L v && go r end) l
+  | _ => true
+  end.
+
+(* the value without its nil dictionary entries, which Format does not write *)
+Fixpoint prune (o : obj) : obj :=
+  match o with
+  | OArr l => OArr (map prune l)
+  | ODict l =>
+    ODict ((fix go (l : list (bytes * obj)) : list (bytes * obj) :=
+              match l with
+              | [] => []
+              | (k, v) :: r => match v with ONull => go r | _ => (k, prune v) :: go r end
+              end) l)
+  | _ => o
+  end.
